@@ -77,6 +77,14 @@ def cases(tier, seed):
                 yield {"kind": "setter", "module": spec, "regime": regime, "custom": True, "seed": rnd.randrange(10**6)}
             yield {"kind": "sequence", "module": spec, "length": rnd.randint(3, 8), "seed": rnd.randrange(10**6)}
             yield {"kind": "aliasing", "module": spec, "seed": rnd.randrange(10**6)}
+            # the same assignments with the library's debug checks switched off (bounds are part of the contract, not of debugging)
+            for regime in ("interior", "oob"):
+                yield {"kind": "setter", "module": spec, "regime": regime, "env": "debug_off", "seed": rnd.randrange(10**6)}
+        # kernels constructed with the deprecated `param_transform` keyword (documented as ignored, with a warning)
+        for spec in ("RBFKernel:param_transform_exp", "MaternKernel:param_transform_exp:ard3", "PeriodicKernel:param_transform_exp"):
+            for regime in ("interior", "nearbound", "large", "oob"):
+                yield {"kind": "setter", "module": spec, "regime": regime, "seed": rnd.randrange(10**6)}
+            yield {"kind": "sequence", "module": spec, "length": rnd.randint(3, 8), "seed": rnd.randrange(10**6)}
         for pr in PRIORS:
             for variant in range(2):
                 yield {"kind": "prior", "prior": pr, "variant": variant, "seed": rnd.randrange(10**6)}
@@ -103,6 +111,12 @@ def _build_module(spec):
         kw["batch_shape"] = torch.Size([2])
     if "ard3" in opts:
         kw["ard_num_dims"] = 3
+    if "param_transform_exp" in opts:
+        import warnings
+
+        with warnings.catch_warnings():
+            warnings.simplefilter("ignore")
+            return getattr(K, name)(param_transform=torch.exp, **kw)
     if name == "ScaleKernel":
         return K.ScaleKernel(K.RBFKernel(**kw), **kw)
     if name == "PolynomialKernel":
@@ -175,6 +189,11 @@ def run_case(case, ctx):
     from vf import util
 
     g = util.gen(case["seed"])
+    if case.get("env") == "debug_off":
+        from gpytorch import settings as S
+
+        with S.debug(False):
+            return _setter(case, ctx, g)
     return {"constraint": _constraint, "setter": _setter, "sequence": _sequence, "prior": _prior, "registered": _registered, "ctor_priors": _ctor_priors, "aliasing": _aliasing, "shared_prior": _shared_prior, "bounds_loaded": _bounds_loaded}[case["kind"]](case, ctx, g)
 
 
